@@ -65,4 +65,15 @@ let () =
       ((match interpolate (List.combine a b) (z_of_hex q) with
         | IpOk f -> toks f | IpFalse -> "false" | IpThrow -> "throw"), out)
     | _ -> failwith "arity");
+  (* primality oracle of the generator models: Miller-Rabin through Zarith/GMP *)
+  let is_prime z = ZA.probab_prime (zarith_of_z z) 30 <> 0 in
+  register "pr_sprime" (function [kind; qsize; qraw; q; p; out] ->
+      let t = (match kind with "1" -> Test7mod8 | "2" -> Test3mod4 | _ -> NoTest) in
+      ((if sprime_accepts is_prime t (z_of_hex qsize) (z_of_hex qraw) (z_of_hex q) (z_of_hex p) then "1" else "0"), out)
+    | _ -> failwith "arity");
+  register "pr_lprime" (function [ps; qs; qc; kc; out] ->
+      ((match lprime_run is_prime (z_of_hex ps) (z_of_hex qs) (zlist_of_tok qc) (zlist_of_tok kc) with
+        | GenOk (p, q, k) -> String.concat "," [hex_of_z p; hex_of_z q; hex_of_z k]
+        | GenThrow -> "throw" | GenMore -> "more"), out)
+    | _ -> failwith "arity");
   main ()
